@@ -2,7 +2,7 @@
 // REAL internal/lru.Cache and on the REAL preparedLRU holding real *inflightPrepare values (lookup-or-
 // insert critical section, flight completion incl. the failure path's remove-by-key, evictPreparedID,
 // clear), plus AST-level expectations on conn.go prepareStatement / executeQuery, plus the cache key itself
-// (near.go: the real keyFor on near-colliding byte-string triples; ops keyfor / keypair / keypairX and the
+// (near.go: the real keyFor on near-colliding byte-string triples; ops keyfor / keypair and the
 // single-flight protocol over near-colliding groups, ops lookupx / completex / unprepx). Answers are compared
 // with the Lean models (lean/Model/LRU.lean, lean/Model/Prepare.lean); keypair with the specification.
 package main
@@ -120,7 +120,7 @@ func (st *state) exec(op string) (res string) {
 		return fmt.Sprintf("ev=%s len=%d", ev(e), st.p.Len())
 	case "pdrain":
 		return "ev=" + ev(st.p.Clear())
-	case "keyfor", "keypair", "keypairX", "lookupx", "unprepx", "completex":
+	case "keyfor", "keypair", "lookupx", "unprepx", "completex":
 		return st.execNear(w)
 	case "ast":
 		return astFacts()
